@@ -1,14 +1,15 @@
 #!/usr/bin/env python3
 import json, os, glob, sys
 ROOT = os.path.dirname(os.path.dirname(os.path.abspath(__file__)))
+REPO = os.environ.get('VERIF_REPO', '/repo')
 rep = {}
 for f in glob.glob(ROOT + '/harness/*.go'):
-    rep['/repo/internal/zzverif/' + os.path.basename(f)] = f
+    rep[REPO + '/internal/zzverif/' + os.path.basename(f)] = f
 for d in glob.glob(ROOT + '/harness/shims/*'):
     # shims/<path with __ for />/file.go  -> /repo/<path>/zz_verif_<file>.go
     pkg = os.path.basename(d).replace('__', '/')
     for f in glob.glob(d + '/*.go'):
-        rep['/repo/' + pkg + '/zz_verif_' + os.path.basename(f)] = f
+        rep[REPO + '/' + pkg + '/zz_verif_' + os.path.basename(f)] = f
 os.makedirs(ROOT + '/build', exist_ok=True)
 out = sys.argv[1] if len(sys.argv) > 1 else ROOT + '/build/overlay.json'
 json.dump({'Replace': rep}, open(out, 'w'), indent=1)
